@@ -218,6 +218,105 @@ def run_one(it):
     return rec
 
 
+def run_proto_one(it):
+    """A message larger than the 1 MiB packet size sent through the real HsmsProtocol (send queue, packet split, result hand-over)
+    over the real TcpServerConnection; the peer drains part of it and then closes (or drains everything)."""
+    import secsgem.hsms
+    from .. import link
+
+    rec = dict(it)
+    rec.update({"sends": [], "received": [], "reset": False})
+
+    def main(s):
+        net = simsock.Net(capacity=it["cap"])
+        simsock.set_net(net)
+        st = secsgem.hsms.HsmsSettings(connect_mode=secsgem.hsms.HsmsConnectMode.PASSIVE, port=5003)
+        proto = secsgem.hsms.HsmsProtocol(st)
+        proto._linktest_timeout = 1e9
+        proto.enable()
+        s.advance(0.3)
+        peer = net.dial(5003)
+        if peer is None:
+            raise Machinery("endpoint not listening")
+        ok, why = s.run_until(lambda: proto.connection_state.current.name != "NOT_CONNECTED", max_dt=30)
+        peer.write(link.hsms_frame(stype=1, system=5))
+        ok, why = s.run_until(lambda: proto.connection_state.current.name == "CONNECTED_SELECTED", max_dt=30)
+        if not ok:
+            raise Machinery(f"not selected: {why}")
+        peer.read()
+        body = fill(1, it["size"])
+        msg = secsgem.hsms.HsmsMessage(secsgem.hsms.HsmsStreamFunctionHeader(7, 9, 1, False, 0), body)
+        expect = bytes(msg.blocks[0].encode()) if False else None
+        done = {"v": False}
+
+        def sender():
+            try:
+                okk = bool(proto.send_message(msg))
+            except Exception as exc:  # noqa: BLE001
+                okk = False
+                rec["send_exception"] = type(exc).__name__
+            rec["sends"].append({"size": it["size"] + 14, "ok": okk})
+            done["v"] = True
+
+        simrt.Thread(target=sender, name="sender").start()
+        stream = bytearray()
+        guard = 0
+        while guard < 400000 and not (done["v"] and not peer.rx):
+            guard += 1
+            s.settle()
+            if it["stop_at"] is not None and len(stream) >= it["stop_at"]:
+                peer.close()                       # the peer goes away in the middle of the message
+                break
+            got = peer.read(it["read"])
+            stream += got
+            if not got and not done["v"]:
+                nd = s.next_deadline()
+                if nd is None:
+                    break
+                s.block(("pace",), max(0.0, nd - s.now))
+        s.run_until(lambda: done["v"], max_dt=60)
+        rec["done"] = done["v"]
+        while peer.rx:
+            stream += peer.read()
+        # the frame on the wire: 4 length bytes, 10 header bytes, body -- compared byte for byte with what was to be sent
+        hdr_ok = len(stream) < 14 or (int.from_bytes(stream[:4], "big") == it["size"] + 10 and stream[14:14 + 64] == body[:64])
+        good = 0
+        if hdr_ok:
+            good = min(len(stream), 14)
+            if len(stream) > 14:
+                sb = bytes(stream[14:])
+                good += len(sb) if sb == body[:len(sb)] else next(i for i in range(len(sb)) if sb[i] != body[i])
+        rec["received"] = ([{"m": 1, "from": 1, "to": good}] if good else []) + ([{"m": 0, "from": good + 1, "to": good + 1}] if good < len(stream) else [])
+        rec["stream_len"] = len(stream)
+        dn = {"v": False}
+
+        def dis():
+            proto.disable()
+            dn["v"] = True
+
+        simrt.Thread(target=dis, name="disable").start()
+        s.run_until(lambda: dn["v"], max_dt=30)
+        rec["disable_returned"] = dn["v"]
+
+    import secsgem.common.tcp_connection as tc
+    s = simrt.run(main, seed=it["seed"], policy=it["policy"], switch_prob=0.2, max_vtime=1e5, wall_timeout=300, line_cost=1e-3,
+                  line_funcs=[tc.TcpConnection._start_receiver, tc.TcpConnection.disconnect])
+    simsock.set_net(None)
+    rec["outcome"] = s.outcome
+    if s.errors:
+        rec["errors"] = [e[:2] for e in s.errors[:2]]
+    if s.outcome != "done":
+        rec["wedge"] = s.wedge_info
+    return rec
+
+
+def run_proto_batch(job):
+    import logging
+    logging.disable(logging.CRITICAL)
+    simsock.install()
+    return [run_proto_one(it) for it in job]
+
+
 def run(ctx: Ctx):
     wd = workdir(PID)
 
@@ -272,6 +371,18 @@ def run(ctx: Ctx):
                                           "via": "protocol_split" if max(sizes) > 1024 * 1024 else "send_data", "then": then,
                                           "seed": rng.randrange(1 << 30), "policy": rng.choice(["fifo", "random"])})
     recs = [r_ for batch in pmap(run_batch, chunks(items, 28)) for r_ in batch]
+    # through the protocol layer: messages around and above the 1 MiB packet size, peer leaving after k bytes
+    MIB = 1024 * 1024
+    pitems = []
+    for size, stop in ((MIB - 14, None), (MIB + 1, None), (2 * MIB + 77, None), (2 * MIB + 77, MIB // 2), (2 * MIB + 77, MIB + 4096),
+                       (3 * MIB, 2 * MIB + 10)) if ctx.quick else \
+            ((MIB - 14, None), (MIB - 13, None), (MIB + 1, None), (2 * MIB + 77, None), (2 * MIB + 77, 100), (2 * MIB + 77, MIB // 2),
+             (2 * MIB + 77, MIB + 4096), (3 * MIB, 2 * MIB + 10), (5 * MIB, 4 * MIB + 1), (5 * MIB, None)):
+        tid += 1
+        pitems.append({"id": tid, "side": "server", "cap": 65536, "sizes": [size + 14], "size": size, "stop_at": stop, "read": rng.choice([4096, 65536, 1 << 20]),
+                       "pace": "protocol", "short": "none", "then": "peer-leaves" if stop is not None else "drain", "seed": rng.randrange(1 << 30),
+                       "policy": rng.choice(["fifo", "random"])})
+    recs += [r_ for batch in pmap(run_proto_batch, chunks(pitems, 10)) for r_ in batch]
     for r_ in recs:
         if r_.get("errors") and "Machinery" in str(r_["errors"]):
             raise Machinery(str(r_["errors"]))
@@ -308,7 +419,8 @@ def run(ctx: Ctx):
     ctx.rule = ("scenarios = {server, client} x buffer capacity {1, 7, 4 KiB, 64 KiB} x message sizes {1, cap-1, cap, cap+1, 3*cap+2, "
                 "1 MiB +-1, 3 MiB} x reader pacing {immediate, delayed, small reads} x short-write policy {none, half, random} x "
                 "{peer drains while the connection stays up, disable() right after the last send and the peer reads until EOF, "
-                "disable() while a send is blocked on a full socket (peer not reading) and the peer reads until EOF afterwards}; "
+                "disable() while a send is blocked on a full socket (peer not reading) and the peer reads until EOF afterwards} + messages of "
+                "1 MiB -14 .. 5 MiB through the real HsmsProtocol send path (packet split), the peer leaving after k bytes; "
                 "non-trivial = distinct scenarios")
     ctx.assumptions += ["kernel TCP behaviour is the simulated socket layer (non-blocking send accepts 1..free bytes or raises EWOULDBLOCK)"]
     return ctx.finish()
